@@ -176,3 +176,71 @@ def gen_burst(rng, i):
             lines.append(f"D {rng.choice([1, 600_000_000])}")
     lines += ["S", "T"]
     return (f"s{i}_burst{n}", lines)
+
+
+def gen_skip_case(rng, kind, i):
+    """Directed at the maintenance paths that meet a deque node whose key is no longer in the
+    map (or was re-inserted): an admitted entry is invalidated while the housekeeper still runs
+    on every operation (clock within the periodic-sync interval), with the node selected by
+    expiry (tiny tti, invalidate_all) or by size eviction (a pending excess)."""
+    cfg = gen_cfg(rng, kind, "tight")
+    cfg["ttl"] = rng.choice(["none", "none", 1, 5])
+    cfg["tti"] = rng.choice(["none", 1, 2, 5])
+    cfg["cap"] = rng.choice(["none", 2, 3, 4])
+    cfg["weigher"] = rng.choice(["none", "value"])
+    lines = [cfg_line(cfg)]
+    keys = [1, 2, 3]
+    for k in keys:
+        lines.append(f"I {k} {rng.choice([1, 1, 2])}")
+    lines.append("S" if kind == "sync" else "T")
+    for _ in range(rng.randrange(2, 7)):
+        k = rng.choice(keys)
+        lines.append(rng.choice(["A", f"D {rng.choice([1, 1, 2, 5])}", f"I {k} {rng.choice([1, 2, 3, 4])}", f"G {k}",
+                                 f"X {k}", f"X {k}", f"I {k + 3} 1"]))
+        if rng.random() < 0.15 and kind == "sync":
+            lines.append("S")
+    lines += ["T"] + (["S", "T"] if kind == "sync" else [])
+    if rng.random() < 0.3:
+        lines.append("DROP")
+    return (f"{kind[0]}{i}_skip", lines)
+
+
+def gen_deque_case(rng, i):
+    """API sequences on the intrusive list within its `unsafe` contract: handles passed to
+    move_to_back / unlink_and_drop / contains / next are live members."""
+    n = rng.choice([10, 30, 80, 200])
+    order = []          # live handles front to back
+    nxt = 0
+    lines = ["cfg kind=deque"]
+    for _ in range(n):
+        r = rng.random()
+        if r < 0.35 or not order:
+            lines.append(f"PUSH {rng.randrange(1000)}")
+            order.append(nxt)
+            nxt += 1
+        elif r < 0.45:
+            lines.append("POP")
+            order.pop(0)
+        elif r < 0.60:
+            h = rng.choice(order)
+            lines.append(f"MTB {h}")
+            order.remove(h)
+            order.append(h)
+        elif r < 0.65:
+            lines.append("MFTB")
+            order.append(order.pop(0))
+        elif r < 0.78:
+            h = rng.choice(order)
+            lines.append(f"UNLINK {h}")
+            order.remove(h)
+        elif r < 0.84:
+            lines.append(f"CONTAINS {rng.choice(order)}")
+        elif r < 0.88:
+            lines.append("PEEK")
+        elif r < 0.92:
+            lines.append(f"NEXT {rng.choice(order)}")
+        else:
+            lines.append("ITER")
+    for _ in range(rng.randrange(0, 4)):
+        lines.append("POP")
+    return (f"d{i}_deque{n}", lines)
